@@ -44,7 +44,10 @@ var eqContexts = []*eqCtx{
 
 func eqAtoms() []string {
 	return []string{"lit", "{0}", "{1}", "{src}", "{if {eq a b} x}", "{if {eq a a} Y}", "{sumi 1 2}", "{upper {0}}", "{coalesce \"\" \"\"}",
-		"{substr abcdef 1 2}", "{bucket {1} 2}", "{len {2}}", "{if {0} T F}", "{prefix {0} a}", "{@join {@split \"a b\"} -}", "", " ", "{$ a {0}}", "{format %s-%s {0} c}"}
+		"{substr abcdef 1 2}", "{bucket {1} 2}", "{len {2}}", "{if {0} T F}", "{prefix {0} a}", "{@join {@split \"a b\"} -}", "", " ", "{$ a {0}}", "{format %s-%s {0} c}",
+		// constant arguments that still carry escapes at the argument's own level (template level,
+		// argument splitter, argument): folding them at compile time must consume the same levels
+		"{upper \"a\\\\\\\\tb\"}", "{len \"\\\\\\\\\\\\\\\\\"}", "{coalesce {9} \"\\\\\\\\n\"}", "{upper a\\\\tb}"}
 }
 
 func TestVerifReplayEquivalence(t *testing.T) {
